@@ -183,6 +183,41 @@ def _hyp_settings(n, shrink=False):
                     derandomize=False)
 
 
+_STOP = None          # multiprocessing.Event: set when --fast-fail hits
+_KNOWN = []
+
+
+def _init_worker(stop, known):
+    global _STOP, _KNOWN
+    _STOP, _KNOWN = stop, known
+
+
+class _CaseTimeout(BaseException):
+    pass
+
+
+def _alarm(signum, frame):
+    raise _CaseTimeout()
+
+
+def execute_guarded(mod, desc, limit):
+    """`execute` under a per-case safety timer. A timeout is inconclusive
+    (harness matter, exit 2), never a violation."""
+    import signal
+    if limit <= 0 or not hasattr(signal, 'SIGALRM'):
+        return execute(mod, desc)
+    old = signal.signal(signal.SIGALRM, _alarm)
+    signal.alarm(int(limit))
+    try:
+        return execute(mod, desc)
+    except _CaseTimeout:
+        return CaseResult('harness', detail='case exceeded the safety '
+                          'timeout of {} s (inconclusive)'.format(limit))
+    finally:
+        signal.alarm(0)
+        signal.signal(signal.SIGALRM, old)
+
+
 def _worker(args):
     modname, tier, kind, payload, seed = args
     try:
@@ -191,9 +226,21 @@ def _worker(args):
         core.import_odl()
         mod = importlib.import_module(modname)
         stats = Stats()
+        limit = int(os.environ.get('VERIF_CASE_TIMEOUT', '0') or 0) or \
+            getattr(mod, 'CASE_TIMEOUT', {}).get(tier, 600)
+
+        def one(desc):
+            if _STOP is not None and _STOP.is_set():
+                return
+            res = execute_guarded(mod, desc, limit)
+            stats.add(desc, res)
+            if _STOP is not None and res.kind == 'violation' and \
+                    match_known(res.signature, _KNOWN) is None:
+                _STOP.set()
+
         if kind == 'enum':
             for desc in payload:
-                stats.add(desc, execute(mod, desc))
+                one(desc)
         else:
             n = payload
             strat = mod.strategy(tier)
@@ -202,7 +249,7 @@ def _worker(args):
             @_hyp_settings(n)
             @given(strat)
             def test(desc):
-                stats.add(desc, execute(mod, desc))
+                one(desc)
 
             test()
         return stats
@@ -311,6 +358,9 @@ def main(argv=None):
                     default=int(os.environ.get('VERIF_JOBS', '0')) or None)
     ap.add_argument('--budget', type=int, default=None)
     ap.add_argument('--no-evidence', action='store_true')
+    ap.add_argument('--fast-fail', action='store_true',
+                    help='stop all workers at the first violation that is '
+                         'not a known finding (mutant self-tests)')
     args = ap.parse_args(argv)
 
     t0 = time.time()
@@ -388,10 +438,13 @@ def main(argv=None):
     import multiprocessing as mp
     ctx = mp.get_context('fork')
     sig_origin = {}
+    stop = ctx.Event() if args.fast_fail else None
     if jobs == 1:
+        _init_worker(stop, known)
         results = [_worker(t) for t in tasks]
     else:
-        with ctx.Pool(jobs) as pool:
+        with ctx.Pool(jobs, initializer=_init_worker,
+                      initargs=(stop, known)) as pool:
             results = pool.map(_worker, tasks, chunksize=1)
     for t, st in zip(tasks, results):
         for sig in st.violations:
@@ -409,7 +462,8 @@ def main(argv=None):
             excluded[e['id']] += cnt
             continue
         new_violations += 1
-        if sig in sig_origin and os.environ.get('VERIF_NO_SHRINK') != '1':
+        if sig in sig_origin and not args.fast_fail and \
+                os.environ.get('VERIF_NO_SHRINK') != '1':
             ws, n = sig_origin[sig]
             desc, detail = shrink(
                 mod, tier, ws, n, sig, (desc, detail),
